@@ -610,8 +610,8 @@ def width_and_stuck_cases():
     out = []
     for c in c05.classification_cases():
         kind = c.case
-        if kind.startswith("stuck") or kind in ("success", "revert"):
-            out.append(Case(f"{PROP}/__main__.run_test#path-loop", kind, c.harness, sources=c.sources))
+        if kind.startswith(("stuck", "substuck")) or kind in ("success", "revert"):
+            out.append(Case(f"{PROP}/__main__.run_test#path-loop", kind, c.harness, replay=replay_script("nested_stuck_classification.py", "a test that calls a helper whose first opcode is unsupported"), sources=c.sources))
     return out
 
 
